@@ -486,6 +486,29 @@ def _native_drop_u():
     try: ns['drop_unguarded']([1], 2); return False
     except ValueError: return True
 
+SRC_SETLIST = '''
+def first_member(s):
+    xs = list(s)
+    return xs[0]
+'''
+class SetList(Spec):
+    """list(set) is SOME enumeration of the members: the first element is a member, but WHICH one is not determined (hash order)"""
+    def bind(self, E, p):
+        h = p.heap; h.arr('$dhas:int'); h.arr('$len'); h.arr('$items:int'); self.h0 = h.copy(); self.s = z3.Const('s', Ref); p.env['s'] = V('set[int]', self.s)
+        self.has0 = self.h0.load(self.s, '$dhas:int'); self.w = z3.Int('some_member'); p.pc += [self.s != NULL, self.h0.alloc[self.s], self.has0[self.w]]          # the set is not empty
+    def ensures(self, E, ctx, p, ret): return [('T:is-a-member', self.has0[ret.term]), ('F:is-the-smallest-member', ctx.forall(1, lambda x: Implies(self.has0[x], ret.term <= x)))]
+def _native_setlist():
+    ns = {}; exec(SRC_SETLIST, ns); return ns['first_member']({8, 1}) != 1        # CPython: list({8, 1}) == [8, 1]
+class SetListEmpty(SetList):
+    def bind(self, E, p):
+        h = p.heap; h.arr('$dhas:int'); h.arr('$len'); h.arr('$items:int'); self.h0 = h.copy(); self.s = z3.Const('s', Ref); p.env['s'] = V('set[int]', self.s)
+        self.has0 = self.h0.load(self.s, '$dhas:int'); p.pc += [self.s != NULL, self.h0.alloc[self.s]]
+    def ensures(self, E, ctx, p, ret): return [('T:is-a-member', self.has0[ret.term])]
+def _native_setlist_empty():
+    ns = {}; exec(SRC_SETLIST, ns)
+    try: ns['first_member'](set()); return False
+    except IndexError: return True
+
 SRC_NONE = '''
 def first_or_zero(xs):
     if not xs:
@@ -506,7 +529,7 @@ class FirstOrZero(Spec):
 def _native_none():
     ns = {}; exec(SRC_NONE, ns); return ns['first_or_zero'](None) == 0 and ns['first_or_zero']([]) == 0
 
-CASES = [('drop', SRC_REMOVE, Drop, _native_drop), ('drop_unguarded', SRC_REMOVE_U, DropUnguarded, _native_drop_u), ('put2', SRC_PUT2, Put2, _native_put2), ('getk', SRC_GETK, GetK, _native_getk), ('seen', SRC_SEEN, Seen, _native_seen), ('safe_get', SRC_SAFE, SafeGet, _native_safe), ('use', SRC_USE, Use, _native_use),
+CASES = [('first_member', SRC_SETLIST, SetList, _native_setlist), ('first_member', SRC_SETLIST, SetListEmpty, _native_setlist_empty), ('drop', SRC_REMOVE, Drop, _native_drop), ('drop_unguarded', SRC_REMOVE_U, DropUnguarded, _native_drop_u), ('put2', SRC_PUT2, Put2, _native_put2), ('getk', SRC_GETK, GetK, _native_getk), ('seen', SRC_SEEN, Seen, _native_seen), ('safe_get', SRC_SAFE, SafeGet, _native_safe), ('use', SRC_USE, Use, _native_use),
          ('inner_bad', SRC_INNER, InnerBad, _native_inner), ('index_of', SRC_INDEXOF, IndexOf, _native_indexof), ('evens', SRC_EVENS, Evens, _native_evens), ('guarded', SRC_GUARD, Guarded, None),
          ('half_guarded', SRC_HALFGUARD, HalfGuarded, _native_halfguard),
          ('first_or_zero', SRC_NONE, FirstOrZero, _native_none), ('zero_fill', SRC_ZERO, ZeroFill, None), ('clobber', SRC_CLOBBER, Clobber, _native_clobber), ('clobber_w', SRC_CLOBBER_W, ClobberW, _native_clobber_w),
@@ -515,7 +538,7 @@ CASES = [('drop', SRC_REMOVE, Drop, _native_drop), ('drop_unguarded', SRC_REMOVE
          ('count', SRC_COUNT, Count, _native_count), ('rows', SRC_ROWS, Rows, _native_rows), ('fresh_rows', SRC_FRESHROWS, FreshRows, _native_fresh_rows), ('chk', SRC_CHK, Chk, _native_chk),
          ('sum_to', SRC_SUMTO, SumTo, _native_sumto)]
 # obligations that must fail although their label carries no F: marker (implicit obligations of the engine)
-EXPECT_FAIL_IMPLICIT = {'LastEmpty': ('no-IndexError',), 'SetX': ('frame@',), 'GetK': ('no-KeyError',), 'HalfGuarded': ('no-IndexError',), 'DropUnguarded': ('no-ValueError',)}
+EXPECT_FAIL_IMPLICIT = {'LastEmpty': ('no-IndexError',), 'SetX': ('frame@',), 'GetK': ('no-KeyError',), 'HalfGuarded': ('no-IndexError',), 'DropUnguarded': ('no-ValueError',), 'SetListEmpty': ('no-IndexError',)}
 
 def run(timeout=20000, verbose=False):
     """-> (ok, n_cases, n_obligations, problems[list of str], seconds)"""
